@@ -214,11 +214,16 @@ def resultStr (r : Option Result) : String :=
   | some (.rejected .toolarge _) => "k10"     -- MessageTooLargeError unwraps to MessageSizeTooLarge (error.go)
   | some (.rejected _ _) => "other"
 
-def predict (sc : Scenario) (s : State) : String :=
+def predict (sc : Scenario) (obs : Obs) (s : State) : String :=
   let rets := (sortBy (fun (a b : CDecl) => a.id < b.id) sc.calls).map (fun c =>
     match s.calls c.id with
     | some C => match C.result with
-      | some (.rejected .metadata i) => s!"c{c.id} {metaCode c i}"
+      | some (.rejected .metadata i) =>
+        -- the error of a failed metadata lookup is the environment's (over a real Transport: dial failures, deadlines);
+        -- the model only says the call ends in a rejection: any observed non-success code is the prediction
+        let seen := retOf obs c.id
+        if (sc.calls.find? (·.id == c.id)).any (fun d => d.msgs.any (fun m => m.topic.startsWith "nope")) then s!"c{c.id} {metaCode c i}"
+        else if isAccepted seen then s!"c{c.id} rejected-by-metadata" else s!"c{c.id} {seen}"
       | r => s!"c{c.id} {resultStr r}"
     | none => s!"c{c.id} closed")
   let tps := sortBy (fun (a b : TP) => a.1 < b.1 || (a.1 == b.1 && a.2 < b.2)) (s.tps.filter (fun tp => !(s.log tp).isEmpty))
@@ -279,7 +284,7 @@ def handle (line : String) : String :=
         let sc : Scenario := { cfg := mc, calls := cs.map (·.1), ptrs := cs.map (fun x => (x.2, x.1.id)) }
         let evs := (evS.splitOn ";").map (fun e => (e.trimAscii).toString) |>.filter (· ≠ "")
         let model := match replay sc (modelCfg mc) State.init 0 evs with
-          | .ok s => predict sc s
+          | .ok s => predict sc obs s
           | .error e => e
         let j := journalOf evs
         let tev : List TEv := evs.map words
@@ -289,7 +294,10 @@ def handle (line : String) : String :=
             | some d => (d.msgs[i]?.map (·.size)).getD 0
             | none => 0
           | none => 0
-        let c08 := holdsC08 mc sc.calls j obs && closedWhenFull mc.bs mc.bb sizeOf tev && detachedGetsPut tev && timerDetachOk tev
+        let accepted : List (String × Nat) := sc.ptrs.filterMap (fun (ptr, cid) =>
+          if isAccepted (retOf obs cid) then (sc.calls.find? (·.id == cid)).map (fun d => (ptr, d.msgs.length)) else none)
+        let c08 := holdsC08 mc sc.calls j obs && closedWhenFull mc.bs mc.bb sizeOf tev && detachedGetsPut tev && timerDetachOk tev &&
+          attemptedAll tev accepted
         let c07 := holdsC07 sc.calls j obs && putInsideSection tev
         let c01 := holdsC01 mc sc.calls j obs && batchOnce tev && timerDetachOk tev
         let holds :=
